@@ -884,3 +884,12 @@ PRE_FIX_F3_EDITS = [
      "                ApiEndpointVersions::From(earliest),\n"
      "            ) => earliest < until,\n"),
 ]
+
+
+def answer_field_from_selection(dsn, lr, op, field):
+    """lookup_route's answer carries `field` of the endpoint selected by find_handler_matching_version: every value the operand
+    may hold is <find_handler_matching_version(..) as Some>.0.<field>, through value-preserving calls only.  Evaluated on the
+    normalised view, so `get(k).and_then(|h| find(h, v))`, `match`, `?` and let-else forms are one program.  Returns (ok, detail)."""
+    srcs = sources(lr, op, VALUE_PRESERVING + [r"ops::Try::branch$"])
+    bad = [repr(p) for p in srcs if not (p.is_call(r"^router::find_handler_matching_version$") and p.npath() == ["+", "0", field])]
+    return bool(srcs) and not bad, ("every source is the selected endpoint's `%s`" % field) if srcs and not bad else ("sources: %s" % (bad[:3] or "none"))
